@@ -12,9 +12,13 @@ package main
 //        Go: build the protobuf tree from the JSON, VerifLoadProto, walk the result through the
 //        public getters (two read-only reflection reads: the fixed flag of multiplexer children,
 //        the default-builder flag of a bus).  Model: Acme.Save.load, shown in `norm` order.
-//        A refusal by a public mutator the model does not cover (names, geometry, scalar
-//        validity) is printed as `err api <type>`; such lines are accepted and counted (tag
-//        load:api).
+//        Model: Acme.LoadGeom.loadFull = Acme.Save.load, then the geometry (loadGeom): the
+//        placement the loader performs through Message / MultiplexerSignal.InsertSignal.  A
+//        geometric refusal (out of bounds, no space left, intersect, size zero) is printed as
+//        `err geom <cause>` and must be PREDICTED by the model; a successful load also prints the
+//        layouts of the loaded network (svGeoOf), which must equal the model's.
+//        A refusal by a public mutator the model does not cover (names, scalar validity) is
+//        printed as `err api <type>`; such lines are accepted and counted (tag load:api).
 //   sv wf <net-json>    → wf=true inrange=true roundtrip=true
 //        the generator's networks satisfy NetWF and InRange, and the model's own round trip holds.
 //
@@ -27,6 +31,7 @@ import (
 	"io"
 	"log"
 	"math/rand"
+	"os"
 	"reflect"
 	"sort"
 	"strconv"
@@ -1520,6 +1525,61 @@ func svWalkNet(net *acmelib.Network) *svNet {
 	return n
 }
 
+// svGeoOf lists the layouts of a loaded network through the public getters: per message (by entity
+// id) its size in bits, the top-level signals in LAYOUT order as [id, relative start, size], and per
+// multiplexer of the message at every depth (by entity id) the group size and every group layout.
+func svGeoOf(net *acmelib.Network) []any {
+	slots := func(sigs []acmelib.Signal) []any {
+		res := []any{}
+		for _, s := range sigs {
+			res = append(res, []any{string(s.EntityID()), s.GetRelativeStartPos(), s.GetSize()})
+		}
+		return res
+	}
+	type row struct {
+		id string
+		v  []any
+	}
+	byID := func(rs []row) []any {
+		sort.Slice(rs, func(i, j int) bool { return rs[i].id < rs[j].id })
+		res := []any{}
+		for _, r := range rs {
+			res = append(res, r.v)
+		}
+		return res
+	}
+	var msgs []row
+	for _, bus := range net.Buses() {
+		for _, ni := range bus.NodeInterfaces() {
+			for _, msg := range ni.SentMessages() {
+				var muxes []row
+				seen := map[string]bool{}
+				var rec func(sigs []acmelib.Signal)
+				rec = func(sigs []acmelib.Signal) {
+					for _, s := range sigs {
+						if s.Kind() != acmelib.SignalKindMultiplexer || seen[string(s.EntityID())] {
+							continue
+						}
+						seen[string(s.EntityID())] = true
+						ms, _ := s.ToMultiplexer()
+						groups := []any{}
+						for _, g := range ms.GetSignalGroups() {
+							groups = append(groups, slots(g))
+						}
+						muxes = append(muxes, row{string(s.EntityID()), []any{string(s.EntityID()), ms.GroupSize(), groups}})
+						for _, g := range ms.GetSignalGroups() {
+							rec(g)
+						}
+					}
+				}
+				rec(msg.Signals())
+				msgs = append(msgs, row{string(msg.EntityID()), []any{string(msg.EntityID()), msg.SizeByte() * 8, slots(msg.Signals()), byID(muxes)}})
+			}
+		}
+	}
+	return byID(msgs)
+}
+
 // svErrClass maps an error of VerifLoadProto to the cause classes of the model.
 func svErrClass(err error) string {
 	switch e := err.(type) {
@@ -1548,8 +1608,29 @@ func svErrClass(err error) string {
 			return "err groupCountZero"
 		case e.Name == "values" && errors.Is(e.Err, acmelib.ErrIsNil):
 			return "err enumValuesEmpty"
+		case e.Name == "groupSize" && errors.Is(e.Err, acmelib.ErrIsZero):
+			return "err geom groupSizeZero"
+		case e.Name == "size" && errors.Is(e.Err, acmelib.ErrIsZero):
+			return "err geom typeSizeZero"
 		}
 		return "err api argument:" + e.Name
+	}
+	// refusals of the placement (verifyBeforeInsert under Message / MultiplexerSignal.InsertSignal):
+	// the geometry model Acme.LoadGeom predicts them
+	var ins *acmelib.InsertSignalError
+	if errors.As(err, &ins) {
+		var sz *acmelib.SignalSizeError
+		var sb *acmelib.StartBitError
+		switch {
+		case errors.As(ins.Err, &sz) && errors.Is(sz.Err, acmelib.ErrOutOfBounds):
+			return "err geom outOfBounds"
+		case errors.As(ins.Err, &sz) && errors.Is(sz.Err, acmelib.ErrNoSpaceLeft):
+			return "err geom noSpaceLeft"
+		case errors.As(ins.Err, &sb) && errors.Is(sb.Err, acmelib.ErrIntersect):
+			return "err geom intersect"
+		case errors.As(ins.Err, &sb) && errors.Is(sb.Err, acmelib.ErrIsNegative):
+			return "err geom negative"
+		}
 	}
 	var gid *acmelib.GroupIDError
 	if errors.As(err, &gid) && errors.Is(gid.Err, acmelib.ErrOutOfBounds) {
@@ -1627,7 +1708,7 @@ func (e *svExec) Do(line string) string {
 		if err != nil {
 			return svErrClass(err)
 		}
-		return "ok " + svJSON(svWalkNet(net))
+		return "ok " + svJSON(svWalkNet(net)) + " " + svJSON(svGeoOf(net))
 	case "wf":
 		return "wf=true inrange=true roundtrip=true"
 	case "example", "example-saved":
@@ -1823,7 +1904,7 @@ func (m *svMut) apply() string {
 	all, muxes := m.sigs()
 	msgs := m.msgs()
 	dangling := "zz9"
-	switch r.Intn(24) {
+	switch r.Intn(34) {
 	case 0: // delete a definition
 		switch r.Intn(6) {
 		case 0:
@@ -2482,6 +2563,285 @@ func (m *svMut) apply() string {
 		p.Units = append(p.Units, svE{"uzz", "unused", svPl("d", "", "k", "1", "sy", "x")})
 		p.Nodes = append(p.Nodes, svpNode{E: svE{"nzz", "unused", svPl("d", "")}, Nid: 99, Ifc: 1, Asg: []svpAsg{}})
 		return "unused-definitions"
+	case 24: // geometry: a top-level position moved onto a neighbour / past the payload
+		if len(msgs) == 0 {
+			return ""
+		}
+		ma := msgs[r.Intn(len(msgs))]
+		if len(ma.m.Refs) == 0 {
+			return ""
+		}
+		i := r.Intn(len(ma.m.Refs))
+		capBits := svAtoi(svParsePl(ma.m.E.Pl)["sz"]) * 8
+		switch r.Intn(4) {
+		case 0:
+			if len(ma.m.Refs) < 2 {
+				return ""
+			}
+			j := (i + 1 + r.Intn(len(ma.m.Refs)-1)) % len(ma.m.Refs)
+			ma.m.Refs[i].Pos = ma.m.Refs[j].Pos
+			return "geo-onto-neighbour"
+		case 1:
+			if len(ma.m.Refs) < 2 {
+				return ""
+			}
+			j := (i + 1 + r.Intn(len(ma.m.Refs)-1)) % len(ma.m.Refs)
+			ma.m.Refs[i].Pos = ma.m.Refs[j].Pos + pick(r, -2, -1, 1, 2, 3)
+			if ma.m.Refs[i].Pos < 0 {
+				ma.m.Refs[i].Pos = 0
+			}
+			return "geo-near-neighbour"
+		case 2:
+			ma.m.Refs[i].Pos = capBits - pick(r, 0, 0, 1, 2, 4, 8)
+			if ma.m.Refs[i].Pos < 0 {
+				ma.m.Refs[i].Pos = 0
+			}
+			return "geo-past-payload"
+		case 3:
+			ma.m.Refs[i].Pos += pick(r, 1, 2, 3, 5, 8, 64, 1000)
+			return "geo-shift-right"
+		}
+	case 25: // geometry: the size of a message
+		if len(msgs) == 0 {
+			return ""
+		}
+		ma := msgs[r.Intn(len(msgs))]
+		sz := svAtoi(svParsePl(ma.m.E.Pl)["sz"])
+		nsz := pick(r, 0, 1, sz-1, sz-1, sz-2, sz/2, sz+1)
+		if nsz < 0 || nsz == sz {
+			return ""
+		}
+		ma.m.E.Pl = svPlSet(ma.m.E.Pl, "sz", svI(nsz))
+		return "geo-message-size"
+	case 26: // geometry: an entry of a group moved onto a neighbour / past the group end (in every group that lists the child)
+		if len(muxes) == 0 {
+			return ""
+		}
+		x := muxes[r.Intn(len(muxes))]
+		var ks []int
+		for k := range x.Groups {
+			if len(x.Groups[k]) > 0 {
+				ks = append(ks, k)
+			}
+		}
+		if len(ks) == 0 {
+			return ""
+		}
+		k := ks[r.Intn(len(ks))]
+		g := x.Groups[k]
+		i := r.Intn(len(g))
+		gs := svAtoi(svParsePl(x.E.Pl)["gs"])
+		var np int
+		name := ""
+		switch r.Intn(4) {
+		case 0:
+			if len(g) < 2 {
+				return ""
+			}
+			np = g[(i+1+r.Intn(len(g)-1))%len(g)].Pos
+			name = "geo-group-onto-neighbour"
+		case 1:
+			if len(g) < 2 {
+				return ""
+			}
+			np = g[(i+1+r.Intn(len(g)-1))%len(g)].Pos + pick(r, -2, -1, 1, 2, 3)
+			name = "geo-group-near-neighbour"
+		case 2:
+			np = gs - pick(r, 0, 0, 1, 2, 4)
+			name = "geo-group-past-end"
+		case 3:
+			np = g[i].Pos + pick(r, 1, 2, 3, 5, 8, 64)
+			name = "geo-group-shift-right"
+		}
+		if np < 0 {
+			np = 0
+		}
+		id := g[i].ID
+		for kk := range x.Groups {
+			for ii := range x.Groups[kk] {
+				if x.Groups[kk][ii].ID == id {
+					x.Groups[kk][ii].Pos = np
+				}
+			}
+		}
+		return name
+	case 27: // geometry: a child copied into another group (its range may be taken there)
+		if len(muxes) == 0 {
+			return ""
+		}
+		x := muxes[r.Intn(len(muxes))]
+		if len(x.Groups) < 2 {
+			return ""
+		}
+		var ks []int
+		for k := range x.Groups {
+			if len(x.Groups[k]) > 0 {
+				ks = append(ks, k)
+			}
+		}
+		if len(ks) == 0 {
+			return ""
+		}
+		k := ks[r.Intn(len(ks))]
+		e := x.Groups[k][r.Intn(len(x.Groups[k]))]
+		for _, f := range x.Fixed {
+			if f == e.ID {
+				return ""
+			}
+		}
+		to := (k + 1 + r.Intn(len(x.Groups)-1)) % len(x.Groups)
+		for _, o := range x.Groups[to] {
+			if o.ID == e.ID {
+				return ""
+			}
+		}
+		x.Groups[to] = svInsertAt(x.Groups[to], r.Intn(len(x.Groups[to])+1), e)
+		return "geo-copy-into-group"
+	case 28: // geometry: one signal listed twice by its message / a child listed twice with a different body
+		if len(msgs) == 0 {
+			return ""
+		}
+		ma := msgs[r.Intn(len(msgs))]
+		if len(ma.m.Sigs) == 0 {
+			return ""
+		}
+		i := r.Intn(len(ma.m.Sigs))
+		ma.m.Sigs = svInsertAt(ma.m.Sigs, r.Intn(len(ma.m.Sigs)+1), svClone(ma.m.Sigs[i]))
+		return "geo-signal-twice"
+	case 29: // geometry: the size of a type / an enum
+		switch r.Intn(3) {
+		case 0:
+			if len(p.Types) == 0 {
+				return ""
+			}
+			t := &p.Types[r.Intn(len(p.Types))]
+			sz := svAtoi(svParsePl(t.Pl)["sz"])
+			nsz := pick(r, 0, sz+1, sz+1, sz+2, sz+4, sz-1, sz+64)
+			if nsz < 0 || nsz == sz {
+				return ""
+			}
+			t.Pl = svPlSet(t.Pl, "sz", svI(nsz))
+			return "geo-type-size"
+		case 1:
+			if len(p.Enums) == 0 {
+				return ""
+			}
+			e := &p.Enums[r.Intn(len(p.Enums))]
+			e.Pl = svPlSet(e.Pl, "ms", svI(pick(r, 1, 2, 3, 5, 8, 16))) // 0 is written as absent and loads as 1 (C12_scalar_minSize_zero): a payload difference, not geometry
+			return "geo-enum-min-size"
+		case 2:
+			if len(p.Enums) == 0 {
+				return ""
+			}
+			e := &p.Enums[r.Intn(len(p.Enums))]
+			// the values stay sorted by index (the walk through the getters lists them so)
+			pl := svParsePl(e.Pl)
+			idx := pick(r, 3, 7, 8, 31, 32, 255, 256, 70000)
+			var vs []string
+			if pl["vs"] != "" {
+				vs = strings.Split(pl["vs"], "/")
+			}
+			at := len(vs)
+			for i, v := range vs {
+				f := strings.Split(v, ":")
+				if svAtoi(f[1]) == idx {
+					return ""
+				}
+				if svAtoi(f[1]) > idx && at == len(vs) {
+					at = i
+				}
+			}
+			vs = svInsertAt(vs, at, sprintf("VX:%d:", idx))
+			e.Pl = svPlSet(e.Pl, "vs", strings.Join(vs, "/"))
+			return "geo-enum-index"
+		}
+	case 30, 31: // geometry: the group size / group count of a multiplexer
+		if len(muxes) == 0 {
+			return ""
+		}
+		x := muxes[r.Intn(len(muxes))]
+		gs := svAtoi(svParsePl(x.E.Pl)["gs"])
+		switch r.Intn(3) {
+		case 0:
+			ngs := pick(r, 0, gs-1, gs-1, gs-2, gs/2, gs+1, gs+1, gs+3, gs+40)
+			if ngs < 0 || ngs == gs {
+				return ""
+			}
+			x.E.Pl = svPlSet(x.E.Pl, "gs", svI(ngs))
+			return "geo-group-size"
+		case 1:
+			// more groups (empty ones): the selector gets wider, the children stay where they are
+			add := pick(r, 1, 1, 2, 3, 4, 12)
+			x.Gc += add
+			for ; add > 0; add-- {
+				x.Groups = append(x.Groups, []svpRef{})
+			}
+			return "geo-selector-wider"
+		case 2:
+			// a fixed child that is listed in one group only still goes into every group
+			if len(x.Fixed) == 0 || len(x.Groups) < 2 {
+				return ""
+			}
+			id := x.Fixed[r.Intn(len(x.Fixed))]
+			keep := r.Intn(len(x.Groups))
+			for k := range x.Groups {
+				if k == keep {
+					continue
+				}
+				var kept []svpRef
+				for _, rf := range x.Groups[k] {
+					if rf.ID != id {
+						kept = append(kept, rf)
+					}
+				}
+				x.Groups[k] = kept
+			}
+			return "geo-fixed-listed-once"
+		}
+	case 32: // geometry: a listed child made fixed (it must be free in every group) / a fixed child moved
+		if len(muxes) == 0 {
+			return ""
+		}
+		x := muxes[r.Intn(len(muxes))]
+		if len(x.Sigs) == 0 {
+			return ""
+		}
+		id := x.Sigs[r.Intn(len(x.Sigs))].E.ID
+		for _, f := range x.Fixed {
+			if f == id {
+				np := pick(r, 0, 1, 2, 4, 7)
+				for kk := range x.Groups {
+					for ii := range x.Groups[kk] {
+						if x.Groups[kk][ii].ID == id {
+							x.Groups[kk][ii].Pos = np
+						}
+					}
+				}
+				return "geo-fixed-moved"
+			}
+		}
+		x.Fixed = append(x.Fixed, id)
+		return "geo-make-fixed"
+	case 33: // geometry: an enum / standard signal retargeted to a definition of another size
+		if len(all) == 0 {
+			return ""
+		}
+		sg := all[r.Intn(len(all))]
+		switch sg.Body {
+		case 1:
+			if len(p.Types) < 2 {
+				return ""
+			}
+			sg.Type = p.Types[r.Intn(len(p.Types))].ID
+			return "geo-retarget-type"
+		case 2:
+			if len(p.Enums) < 2 {
+				return ""
+			}
+			sg.Enum = p.Enums[r.Intn(len(p.Enums))].ID
+			return "geo-retarget-enum"
+		}
+		return ""
 	}
 	return ""
 }
@@ -2595,7 +2955,30 @@ func (svStream) Same(goOut, modelOut string) bool {
 			}
 		}
 	}
-	// a refusal by a public mutator the model does not cover
+	// two children with two positions in one group: the code names the position of whichever it
+	// meets first (map order), the model the first in list order
+	if strings.HasPrefix(goOut, "err twoPositions ") && strings.HasPrefix(modelOut, "err twoPositions ") {
+		return true
+	}
+	// a refusal of the placement: the model names the cause; for a multiplexer with several faults
+	// it lists every cause the code may meet first (the entries of a group are a Go map)
+	if g, ok := strings.CutPrefix(goOut, "err geom "); ok {
+		if m, ok := strings.CutPrefix(modelOut, "err geom "); ok {
+			for _, c := range strings.Split(m, "|") {
+				if c == g {
+					return true
+				}
+			}
+			return false
+		}
+		// the code met the geometric fault BEFORE a structural one of the same tree (it interleaves
+		// loading and placing; the model is load >=> loadGeom): both refuse, the order is not modelled
+		if os.Getenv("VERIF_SV_DEBUG") != "" && strings.HasPrefix(modelOut, "err ") {
+			fmt.Fprintf(os.Stderr, "sv-order go=%q model=%q\n", goOut, modelOut)
+		}
+		return strings.HasPrefix(modelOut, "err ")
+	}
+	// a refusal by a public mutator the model does not cover (names, scalar validity)
 	return strings.HasPrefix(goOut, "err api ")
 }
 
@@ -2622,6 +3005,8 @@ func (svStream) Tag(lines, outs []string) (bool, []string) {
 				tags = append(tags, "load:ok")
 			case len(of) > 1 && of[1] == "api":
 				tags = append(tags, "load:api", "load:api:"+strings.Join(of[2:], "_"))
+			case len(of) > 2 && of[1] == "geom":
+				tags = append(tags, "load:geom", "load:geom:"+of[2])
 			case len(of) > 1:
 				tags = append(tags, "load:err:"+of[1])
 			default:
